@@ -165,6 +165,8 @@ class Gen:
         cands = []
         for name, ps, ret, rank in self.defs:
             if ret == INT and rank < ctx["rank"]:
+                if ctx.get("no_closures") and any(t.startswith("(fn") for _, t in ps):
+                    continue
                 cands.append(("def", name, ps))
         for n, (t, m) in sc.lookup_all().items():
             if t.startswith("(fn") and t.endswith(" int)") and not ctx.get("no_clo_calls"):
@@ -277,7 +279,7 @@ class Gen:
         r = self.r
         k = self.k
         c = r.random()
-        if k.closures and k.closure_bias and r.random() < k.closure_bias and not ctx.get("pure") and not ctx.get("no_clo_calls"):
+        if k.closures and k.closure_bias and r.random() < k.closure_bias and not ctx.get("pure") and not ctx.get("no_clo_calls") and not ctx.get("no_closures"):
             fs = [(n, t) for n, (t, m) in sc.lookup_all().items() if t.startswith("(fn")]
             if fs and r.random() < 0.6 and self.charge(ctx, fs[0][0]):
                 n, t = fs[0]
@@ -384,7 +386,7 @@ class Gen:
             ty, ann = STR, "_"
         elif c < 0.8 and self.k.nilable:
             ty, ann = OINT, OINT
-        elif self.k.closures:
+        elif self.k.closures and not ctx.get("no_closures"):
             ps = [self.pick([INT, INT, BOOL]) for _ in range(r.randint(0, 2))]
             ty = fn_ty(ps, self.pick([INT, INT, INT, BOOL]))
             ann = ty if r.random() < 0.3 else "_"
@@ -410,7 +412,7 @@ class Gen:
         pre, post, esc = "", "", ""
         body = self.block(body_sc, d - 1, c2)     # before the escape locals exist: it cannot mention them
         if (self.k.closures and self.k.closure_bias and r.random() < self.k.closure_bias + 0.2
-                and not ctx.get("pure") and not ctx.get("no_clo_calls")):
+                and not ctx.get("pure") and not ctx.get("no_clo_calls") and not ctx.get("no_closures")):
             # one closure per ITERATION escapes into its own outer variable: a variable captured in
             # iteration k must keep iteration k's value (fresh variable per iteration), also when the
             # body is left by `continue`/`break` or ends in nested scopes
@@ -521,7 +523,9 @@ class Gen:
             wsc = Scope(None, boundary=True)
             for p_, t_ in ps:
                 wsc.vars[p_] = (t_, False)   # generator parameters are not assignable in Elk
-            wctx = {"loops": [], "in_fn": True, "ret": INT, "rank": 10 ** 5, "in_finally": False, "acc": [0], "mult": 1, "in_w": True}
+            # known finding C15-closure-stale-across-yield: the wrapped body creates no closures
+            wctx = {"loops": [], "in_fn": True, "ret": INT, "rank": 10 ** 5, "in_finally": False, "acc": [0], "mult": 1, "in_w": True,
+                    "no_closures": True}
             wbody = self.block(wsc, self.k.max_depth, wctx, final_ty=INT, n=r.randint(2, 6))
             plist = " ".join(f"({p_} {t_})" for p_, t_ in ps)
             texts.append(f"(def w ({plist}) int {wbody})")
